@@ -214,6 +214,22 @@ def run_case(case):
                         v('c16-curvature-matrix', 'curvature_matrix @ d differs from the rotation of the NED '
                           'frame by %.3e rad for a %g m displacement %r at %r (bound %.3e)'
                           % (r_, s, dvec.tolist(), lla.tolist(), bound))
+    # argument form: integer-typed inputs (whole degrees / metres) give the same values as floats
+    if float(lat_d).is_integer() and float(lon_d).is_integer():
+        li, lo_i = int(lat_d), int(lon_d)
+        pairs = [(transform.lla_to_ecef(np.array([li, lo_i, 100])), transform.lla_to_ecef(np.array([lat_d, lon_d, 100.0]))),
+                 (transform.mat_en_from_ll(li, lo_i), transform.mat_en_from_ll(lat_d, lon_d)),
+                 (earth.gravity(li, 100), earth.gravity(lat_d, 100.0)), (earth.rate_n(li), earth.rate_n(lat_d)),
+                 (np.array(earth.principal_radii(li, 100)), np.array(earth.principal_radii(lat_d, 100.0))),
+                 (earth.gravitation_ecef(np.array([li, lo_i, 100])), earth.gravitation_ecef([lat_d, lon_d, 100.0])),
+                 (transform.perturb_lla(np.array([li, lo_i, 100]), np.array([10, -20, 5])),
+                  transform.perturb_lla([lat_d, lon_d, 100.0], [10.0, -20.0, 5.0])),
+                 (transform.compute_lla_difference(np.array([li, lo_i, 100]), np.array([li, lo_i, 90])),
+                  transform.compute_lla_difference([lat_d, lon_d, 100.0], [lat_d, lon_d, 90.0]))]
+        for k_, (a_, b_) in enumerate(pairs):
+            if np.shape(a_) != np.shape(b_) or np.abs(np.asarray(a_, dtype=float) - np.asarray(b_, dtype=float)).max() > 0:
+                v('c16-int-dtype-form', 'integer-typed input gives a different value than the same number as float '
+                  '(function #%d of the list at (%r, %r))' % (k_, lat_d, lon_d))
     # lla_to_ned: default origin = first row, DataFrame form keeps the time index and names the columns
     if abs(lat_d) <= 85.0:
         import pandas as pd
